@@ -236,6 +236,10 @@ func (self *TextParser) ParseRequest() error {
 					self.argsCount = argsCount
 					self.cargIndex = 0
 					self.bufIndex++
+					if argsCount <= 0 {
+						self.stage = 0
+						return nil
+					}
 					self.stage = 2
 					break
 				} else if self.rbuf[self.bufIndex] != '\r' {
@@ -303,7 +307,7 @@ func (self *TextParser) ParseRequest() error {
 				} else {
 					self.args[len(self.args)-1] += string(self.rbuf[self.bufIndex : self.bufIndex+cargLen])
 				}
-				self.cargIndex = cargLen
+				self.cargIndex = self.cargLen
 				self.bufIndex += cargLen
 			}
 
@@ -447,7 +451,7 @@ func (self *TextParser) ParseResponse() error {
 				} else {
 					self.args[len(self.args)-1] += string(self.rbuf[self.bufIndex : self.bufIndex+cargLen])
 				}
-				self.cargIndex = cargLen
+				self.cargIndex = self.cargLen
 				self.bufIndex += cargLen
 			}
 
@@ -477,7 +481,7 @@ func (self *TextParser) ParseResponse() error {
 				return nil
 			}
 		case 5:
-			startBufIndex, endBufIndex := self.bufIndex, self.bufIndex
+			startBufIndex, endBufIndex := self.bufIndex, self.bufIndex-1
 			for ; self.bufIndex < self.bufLen; self.bufIndex++ {
 				if self.rbuf[self.bufIndex] == '\n' {
 					if self.argsType == 2 {
@@ -504,7 +508,7 @@ func (self *TextParser) ParseResponse() error {
 			}
 			return nil
 		case 6:
-			startBufIndex, endBufIndex := self.bufIndex, self.bufIndex
+			startBufIndex, endBufIndex := self.bufIndex, self.bufIndex-1
 			for ; self.bufIndex < self.bufLen; self.bufIndex++ {
 				if self.rbuf[self.bufIndex] == ' ' {
 					self.args[0] += string(self.rbuf[startBufIndex : endBufIndex+1])
